@@ -549,4 +549,93 @@ mod sbs_rows {
         std::mem::forget(out);
         std::mem::forget(lines);
     }
+
+    // ---- C07: "the left panel is padded (or truncated) to exactly the panel width", so that the
+    // right panel starts at the same column on every row. The real `pad_panel_line_to_width` +
+    // `get_right_fill_style_for_panel` on a half line of 3 ASCII columns, for every panel width
+    // 0..=6. `ansi::measure_text_width` and `ansi::truncate_str` (ANSI iterator, graphemes: out of
+    // reach) are replaced by their behaviour on plain ASCII text: width = byte length, truncation =
+    // the first `display_width` bytes.
+    fn stub_measure_ascii(s: &str) -> usize {
+        s.len()
+    }
+    fn stub_truncate_ascii<'a>(s: &'a str, display_width: usize, _tail: &str) -> std::borrow::Cow<'a, str> {
+        let n = if display_width < s.len() { display_width } else { s.len() };
+        std::borrow::Cow::Borrowed(&s[..n])
+    }
+
+    // `" ".repeat(n)` with symbolic n is a symbolic-size allocation (fatal for CBMC): same result
+    // from a buffer of fixed capacity
+    fn stub_repeat(s: &str, n: usize) -> String {
+        assert!(s.len() == 1 && n <= 8, "harness: padding with single blanks, at most 8");
+        let mut out = String::with_capacity(8);
+        let c = s.as_bytes()[0] as char;
+        let mut i = 0;
+        while i < 8 {
+            if i < n {
+                out.push(c);
+            }
+            i += 1;
+        }
+        out
+    }
+
+    fn pad_panel<const LEFT: bool, const EMPTY: bool>() {
+        let mut cfg_mem = MaybeUninit::<Config>::uninit();
+        let config = cfg(&mut cfg_mem);
+        let w_panel: usize = kani::any();
+        kani::assume(w_panel <= 6);
+        unsafe {
+            let p = config as *const Config as *mut Config;
+            addr_of_mut!((*p).side_by_side_data).write(SideBySideData::new(Panel { width: w_panel }, Panel { width: w_panel }));
+            addr_of_mut!((*p).null_style).write(Style::new());
+            addr_of_mut!((*p).truncation_symbol).write(String::new());
+        }
+        let mut line = if EMPTY { String::new() } else { "abc".to_string() };
+        let text = if EMPTY { 0 } else { 3 };
+        let state = State::HunkMinus(DiffType::Unified, None);
+        // the half row beside a line that exists only in the other panel (line_index None), or
+        // (EMPTY) an empty-by-construction half row
+        pad_panel_line_to_width(&mut line, EMPTY, None, &[], None, &state, if LEFT { Left } else { Right }, BgShouldFill::With(BgFillMethod::TryAnsiSequence), config);
+        if LEFT {
+            assert!(line.len() == w_panel, "the left half row is exactly as wide as the panel: padded with spaces or truncated");
+            let keep = if text < w_panel { text } else { w_panel };
+            let b = line.as_bytes();
+            let orig = b"abc";
+            for i in 0..3 {
+                if i < keep {
+                    assert!(b[i] == orig[i], "the text is kept up to the panel width");
+                }
+            }
+            for i in 0..6 {
+                if i >= keep && i < w_panel {
+                    assert!(b[i] == b' ', "the rest of the panel is blank");
+                }
+            }
+        } else {
+            // nothing forces the right half row to a width: it is only cut when too wide
+            assert!(line.len() == if text < w_panel { text } else { w_panel }, "the right half row is cut to the panel width, not padded");
+        }
+        kani::cover!(w_panel == 6, "padding needed");
+        kani::cover!(w_panel == 2 || EMPTY, "truncation needed");
+        kani::cover!(true, "end of harness reached");
+        std::mem::forget(line);
+        std::mem::forget(state);
+    }
+
+    macro_rules! pad_harness {
+        ($name:ident, $left:expr, $empty:expr) => {
+            #[kani::proof]
+            #[kani::unwind(9)]
+            #[kani::stub(crate::ansi::measure_text_width, stub_measure_ascii)]
+            #[kani::stub(crate::ansi::truncate_str, stub_truncate_ascii)]
+            #[kani::stub(str::repeat, stub_repeat)]
+            fn $name() {
+                pad_panel::<$left, $empty>();
+            }
+        };
+    }
+    pad_harness!(c07_pad_left_panel_text, true, false);
+    pad_harness!(c07_pad_left_panel_empty, true, true);
+    pad_harness!(c07_pad_right_panel_text, false, false);
 }
